@@ -29,7 +29,7 @@ def system_from_case(case):
     fw = case['framework']
     coords = np.concatenate([diff, np.array(fw['coords'], float)], axis=1)
     return {
-        'matrix': np.array(case['lattice']['matrix'], float), 'site_frac': np.array(case['sites']['frac'], float), 'site_labels': list(case['sites']['labels']),
+        'matrix': np.array(case['lattice']['matrix'], float), 'site_frac': np.array(case['sites']['frac'], float) + np.array(case['sites'].get('image_shift') or 0, float), 'site_labels': list(case['sites']['labels']),
         'radius': case['radius'], 'f': case['inner_fraction'], 'coords': coords, 'symbols': ['Li'] * diff.shape[1] + list(fw['symbols']),
         'dt': case['time_step'], 'temp': case['temperature'],
     }
@@ -150,7 +150,7 @@ def run(case):
         cb = A['coords'] + tau[None, None, :]
         B['coords'] = cb - np.floor(cb)
         sb = A['site_frac'] + tau[None, :]
-        B['site_frac'] = sb - np.floor(sb)
+        B['site_frac'] = sb - np.floor(sb) if tf.get('wrap_sites', True) else sb
         if np.any(np.floor(cb) != np.floor(A['coords'])) or np.any(np.floor(sb) != np.floor(A['site_frac'])):
             flags.add('wraps-through-face')
     elif kind == 'perm-atoms':
@@ -308,7 +308,7 @@ def invariance_cases(draw, tier):
     L = np.linalg.norm(M, axis=1)
     c['resolution'] = float(L.min() / draw(st.sampled_from([1.5, 2.5, 3.3, 5.1])))
     c['rdf'] = {'max_dist': float(draw(st.sampled_from([2.0, 3.5, 5.0]))), 'resolution': float(draw(st.sampled_from([0.25, 0.5, 0.7])))}
-    c['cutoff'] = float(draw(st.sampled_from([1.0, 2.5, 4.0])))
+    c['cutoff'] = float(draw(st.sampled_from([1.0, 2.5, 4.0, 6.5])))
     kind = draw(st.sampled_from(['rotate', 'translate', 'translate-grid', 'translate-site-to-face', 'perm-atoms', 'perm-sites']))
     tf = {'kind': kind}
     if kind == 'rotate':
@@ -323,6 +323,7 @@ def invariance_cases(draw, tier):
         tf['eps'] = [draw(st.sampled_from([None, -1.5, -0.9, -0.3, 0.0, 0.3, 0.9, 1.1, 1.3, 1.6, 2.0])) for _ in range(3)]
     else:
         tf['perm'] = draw(st.permutations(list(range(8))))
+    tf['wrap_sites'] = draw(st.booleans())
     c['transform'] = tf
     return c
 
